@@ -155,4 +155,18 @@ PROPS = {
         "rule": "histories with a label updated in every epoch; tombstone cut-off at every epoch 0..current on a copy of the storage: epoch hash, audit proof, other labels' lookup and history proofs and (cut-off before the latest update) the label's own lookup must be structurally identical; the label's history must verify with AllowMissingValues to the same versions/epochs with tombstoned values empty, Default must reject exactly when the requested range (Complete, MostRecent 1/2/n) includes a tombstoned entry; publish-after-tombstone must equal tombstone-after-publish (database compared); the model's d_tombstone is tied by the dirs step (state, history proofs, both verification modes, further publish)",
         "assumptions": [],
     },
+    "C18": {
+        "coq_deps": ["VrfFacts"],
+        "steps": [{"sub": "c18", "quick": [0], "thorough": [1], "timeout": 3000}],
+        "rule": "for structured and random secret keys (hard-coded, all-zero, all-0xFF, random), labels (empty, 1-byte, prefix-related, 330-byte, random), both freshness values and versions across the u64 range: derivation twice (determinism, 256 bits), proof bytes parse/print, verification under the public key with equality of the verified output and the node label placed in the tree, every single-field alteration of the verification inputs (freshness, version+1, version high bit, label extended / bit-flipped, other public key, each of the 80 proof bytes, wrong proof lengths) must fail or yield the same label; distinct (key,label,freshness,version) give distinct labels; commitments under different keys differ; directories run under several secret keys: lookup proofs verify only under their own public key, altered claimed node labels / swapped VRF proofs / other label / version+1 fail, batch derivation equals single derivation. Model lines: the VRF input hash and the value commitment are recomputed by the Coq model (Gallina BLAKE3) for every case",
+        "partial": "ECVRF itself is proved at the level of its algebraic skeleton over an abstract group (completeness, challenge binding of key and input, output determined by gamma, proof-byte round trip); curve25519 arithmetic, SHA-512, hash-to-curve and the uniqueness/pseudorandomness of ECVRF are premises, exercised on the implementation by the alteration oracle only",
+        "assumptions": ["group laws and point codec of the prime-order subgroup of edwards25519 (premises GroupLaws / PointCodec of the theorems)", "VRF uniqueness (premise of C18_no_other_label)", "collision resistance of BLAKE3 and of the ECVRF challenge hash appear as explicit bad events in the statements"],
+    },
+    "C19": {
+        "coq_deps": ["ProtoFacts"],
+        "steps": [{"sub": "c19", "quick": [0], "thorough": [1], "timeout": 3000}],
+        "rule": "random publish histories (both configurations): every lookup, history (Complete, MostRecent) and append-only proof and every audit blob is encoded by the implementation and byte-for-byte by the Coq model; decoded back and compared; verification before/after the wire compared; then bit-flipped, truncated, range-deleted, byte-inserted, doubled, random and empty encodings plus field-level alterations re-encoded by rust-protobuf (each required field removed, labels of 33 bytes / 257 bits, digests of 0/31/33 bytes, directions 2..u32::MAX, 0/1/3 children, missing or extra siblings, u64::MAX numbers) are decoded under catch_unwind by the implementation and by the model: the model answers ok(value)/reject, which must equal the implementation's answer, or OUTSIDE (wire features left to the protobuf library; counted in input_distribution.model_outside) where only absence of a panic is checked; every accepted decode is verified (no panic, same result as the original or rejection); blob names printed/parsed incl. malformed names; numeric edge probes on the verifiers",
+        "assumptions": ["the protobuf library's handling of unknown fields, groups, duplicated singular fields and over-long varints is not modelled (answer OUTSIDE); messages are shorter than 2^64 bytes"],
+        "trusted": ["rust-protobuf 3.7.2 for wire features outside Proto.v's canonical subset"],
+    },
 }
